@@ -994,6 +994,7 @@ func (x *Exec) applyContractSig(st *State, call *ast.CallExpr, sig *types.Signat
 			pn = fmt.Sprintf("a%d", i)
 		}
 		names[pn] = args[i]
+		names["arg_"+pn] = args[i] // the parameter, also where a result name (res, err) hides its own name
 		if i < len(raw) {
 			x.curRaw[pn] = raw[i]
 		}
@@ -1137,7 +1138,7 @@ func (x *Exec) applyContractSig(st *State, call *ast.CallExpr, sig *types.Signat
 	}
 	x.applyCounts(st, post, c)
 	kind := c.Kind
-	if c.Opts["trusted"] {
+	if c.Opts["trusted"] || c.Opts["assume_post"] {
 		kind = "trusted"
 	}
 	x.prog.usedContracts[x.fname+" -> "+c.Key+" ["+kind+"]"] = true
